@@ -194,7 +194,9 @@ def case_seq(ctx, desc):
         impl = None
         try:
             st = w.trig.actions[0]._LocationAction__stats
-            impl = (min(st.fire_count, (fc if fc > 0 else 0) + 1), None if st.last_fire == 0 else min(now - st.last_fire, 10 * P + 2))
+            # the implementation's own counter is kept exact up to 4 (not capped like the reference's): a limiter whose behaviour
+            # depends on how often it fired (not only on whether the budget is exhausted) must not be merged away
+            impl = (min(st.fire_count, max((fc if fc > 0 else 0) + 1, 4)), None if st.last_fire == 0 else min(now - st.last_fire, 10 * P + 2))
         except Exception:
             pass
         rel = now - T0 if win in ('closes-soon', 'opens-soon') else 0
